@@ -260,6 +260,15 @@ func (a *DateArg) Parse() error {
 	if len(str) != 10 {
 		return ErrInval
 	}
+	// strconv.Atoi would let a sign through ("+020-01-01")
+	for i := 0; i < len(str); i++ {
+		if i == 4 || i == 7 {
+			continue
+		}
+		if str[i] < '0' || str[i] > '9' {
+			return ErrInval
+		}
+	}
 
 	/* 4DIGIT */
 	i = strings.Index(str, "-")
